@@ -1,0 +1,9 @@
+#![allow(unexpected_cfgs)]
+// The lock types used by the database. With `--cfg jammdb_verif` (verification builds only)
+// they come from the shuttle scheduler so that thread interleavings can be explored; in every
+// normal build they are the standard library's.
+#[cfg(not(jammdb_verif))]
+pub(crate) use std::sync::{Mutex, MutexGuard, RwLock, RwLockReadGuard};
+
+#[cfg(jammdb_verif)]
+pub(crate) use shuttle::sync::{Mutex, MutexGuard, RwLock, RwLockReadGuard};
